@@ -1,34 +1,16 @@
-import BridgeVerif.Core
+import BridgeVerif.Translated.EncBase
 import BridgeVerif.Generated.PyCore
 /-!
-# Encoders: the values of the hand-written model as MiniPy values of the TRANSLATED program
+# The whole translated core (value classes + scoring + the two state machines)
 
-`encX v` is the MiniPy value the real program would hold for the model value `v` (an `Enum` member is its class and its
-`value`; a dataclass instance its attributes in declaration order).  The correspondence check uses the same encoding
-(harness/py_common.py `enc`) when it runs the translated program next to the real functions.
+`P` is the union program of `Generated/PyCore.lean`; the theorems about `BiddingPhase` (Translated/Auction*.lean) and the
+playing phases (Translated/Play*.lean) are about `P`.  The theorems about the value classes and the scoring functions
+(Score*, Notation, Contract*, Imps) are about `PB` (Translated/EncBase.lean), so that a change in a state machine does
+not touch them.
 -/
 namespace Bridge.Translated
 open Bridge.Py Bridge.Generated.PyCore
 
 abbrev P : Program := program
-
-def encSuit (s : Suit) : Val := .enum n_Suit s.value
-def encSeat (p : Seat) : Val := .enum n_Player p.value
-def encSide (s : Side) : Val := .enum n_Pair s.value
-def encVul (v : Vul) : Val := .enum n_Vul v.value
-def encCall (c : Call) : Val := .enum n_Bid c.value
-def encBid (b : Fin 35) : Val := .enum n_Bid (b.val + 1)
-def encCard (c : Card) : Val := .obj n_Card [(n_rank, .int c.rank), (n_suit, encSuit c.suit)]
-def encOpt {α} (f : α → Val) : Option α → Val
-  | none => .none
-  | some a => f a
-/-- a `Contract` instance (a passed-out contract carries `final_bid = None`) -/
-def encContract (c : Contract) : Val :=
-  .obj n_Contract [(n_final_bid, encOpt encBid c.finalBid), (n_x, .bool c.x), (n_xx, .bool c.xx), (n_vul, encVul c.vul),
-                   (n_declarer, encOpt encSeat c.declarer)]
-
-def fn (f : Id) (args : List Val) : R Val := P.runFn f args
-/-- result of a method / property (the receiver afterwards is dropped) -/
-def meth (c m : Id) (args : List Val) : R Val := (P.runMethod c m args).map (·.1)
 
 end Bridge.Translated
